@@ -45,6 +45,7 @@ def c04Fault1 (s : String) : Option Fault :=
   | ["db", k] => do pure ⟨← k.toNat?, .dieBefore⟩
   | ["da", k] => do pure ⟨← k.toNat?, .dieAfter⟩
   | ["ab", k] => do pure ⟨← k.toNat?, .abort⟩
+  | ["sk", k] => do pure ⟨← k.toNat?, .skip⟩
   | _ => none
 
 /-- `none` or `+`-separated faults of one attempt, e.g. `exc@7+da@12` -/
